@@ -195,6 +195,9 @@ unsigned int get_index_reg(struct instr *instruc, const char *mem, char reg[]) {
   for (int i = 0; i < len; i++) {
     if ((multiply || plus) && IN_RANGE(mem[i], 'a', 'z')) {
       int j = copy_index_reg(i, mem, reg);
+      // the register name must end at an operator or the closing bracket
+      if (mem[j] != '*' && mem[j] != '+' && mem[j] != '-' && mem[j] != ']')
+        return EXIT_FAILURE;
       if (instruc->sib_disp && mem[j] == '*')
         return EXIT_FAILURE;
       if (!instruc->sib_disp && mem[j] == '*' &&
